@@ -296,6 +296,8 @@ def _step(seed, schema, frame, op, is_polars, add):
     rename = {op[1]: op[1] + "_renamed"} if op[0] == "rename_columns" else {}
     for cname, col in before_cols.items():
         newname = rename.get(cname, cname)
+        if op[0] == "add_columns" and cname == op[1]:
+            continue   # add_columns with an existing key replaces that column: it is the component the operation names
         if newname in after_cols:
             b, a = _attrs(col, COMPONENT_ATTRS), _attrs(after_cols[newname], COMPONENT_ATTRS)
             touched = named if (op[0] in ("update_column", "update_columns") and cname == op[1]) else set()
@@ -313,7 +315,10 @@ def _step(seed, schema, frame, op, is_polars, add):
             ok_ = FP.fingerprint(got) == FP.fingerprint(want)
         if not ok_:
             add("update_applied", f"{seed}:{opname}", f"{op}: requested {op[2]}={want!r}, the new schema has {got!r}")
-    if op[0] == "set_index":
+    prior_names = [] if schema.index is None else list(getattr(schema.index, "names", [schema.index.name]))
+    if op[0] == "set_index" and op[1] in prior_names:
+        pass   # the index already had a level of that name (earlier set_index(drop=False)): which level came from the column is ambiguous
+    elif op[0] == "set_index":
         moved = before_cols[op[1]]
         idx = res.index
         target = None
